@@ -8,5 +8,6 @@ PROPS=${@:-C06 C07 C10 C17 C18 C01 C02 C03 C04 C05 C08 C09 C11 C12 C13 C14 C15 C
 for P in $PROPS; do
   VERIF_TIER=thorough VERIF_SEED=$S ./check $P > thor_$P.$S.log 2>&1; rc=$?
   echo "rc=$rc $(tail -1 thor_$P.$S.log)"
+  grep -E "exceeded the per-run|harness error|build trouble" thor_$P.$S.log | sed "s/^/  TROUBLE $P: /"
   grep -A1 "^VIOLATION" thor_$P.$S.log | grep "signature=" | sed "s/.*signature=\"\([^\"]*\)\" runs=\([0-9]*\).*/  UNKNOWN $P \2 \1/"
 done
